@@ -75,7 +75,7 @@ def _outcome(thunk):
         return ('exc', type(e).__name__)
 
 
-def hammer(ctx, calls, nthreads=4, per_thread=40000):
+def hammer(ctx, calls, nthreads=4, per_thread=40000, budget=3.0):
     """calls: list of (label, thunk).  Every thunk is first run alone (its outcome there is what the check's oracle has
     already judged), then `nthreads` threads call all of them in rotated orders, `per_thread` calls each, with a switch
     interval of a microsecond; an outcome that differs from the outcome alone is an answer that leaked from another
@@ -85,8 +85,8 @@ def hammer(ctx, calls, nthreads=4, per_thread=40000):
     alone = [_outcome(t) for _l, t in calls]
     again = [_outcome(t) for _l, t in calls]
     per_call = (time.perf_counter() - t0) / max(1, 2 * len(calls))
-    # about three seconds of library time in total, at least 300 and at most `per_thread` calls per thread
-    per_thread = max(300, min(per_thread, int(3.0 / max(per_call, 1e-6) / nthreads)))
+    # about `budget` seconds of library time in total, at least 300 and at most `per_thread` calls per thread
+    per_thread = max(300, min(per_thread, int(budget / max(per_call, 1e-6) / nthreads)))
     stable = [i for i in range(len(calls)) if alone[i] == again[i]]
     if len(stable) < 2:
         return 0
